@@ -220,14 +220,21 @@ const (
 
 // guarded runs fn under the panic oracle; stage names what was running.
 func guarded(c *core.Ctx, e *entry, stage string, input []byte, fn func()) (ok bool) {
+	simrt.HangHit = false
 	defer func() {
-		if r := recover(); r != nil {
+		r := recover()
+		if r == nil && !simrt.HangHit {
+			return
+		}
+		{
 			ok = false
 			if c.Failed() {
 				return
 			}
-			if hp, isHang := r.(simrt.HangPanic); isHang {
-				c.Fail("hang", "C04/hang/"+stage+"/"+siteFunc(hp.Site), "%s of %d bytes at %s exhausted its step budget (simulated time): a loop that does not terminate in proportion to the input", stage, len(input), e.name)
+			if simrt.HangHit {
+				// (the budget panic may have been swallowed or re-wrapped by a dependency on its way up)
+				simrt.HangHit = false
+				c.Fail("hang", "C04/hang/"+stage+"/"+siteFunc(simrt.HangSite), "%s of %d bytes at %s exhausted its step budget (simulated time): a loop that does not terminate in proportion to the input", stage, len(input), e.name)
 			} else {
 				frame, kind := libFrame(r)
 				c.Fail("panic", fmt.Sprintf("C04/panic/%s/%s/%s", stage, frame, kind), "%s at entry point %s panicked on %d bytes %q: %v", stage, e.name, len(input), clip(input, 80), r)
@@ -385,6 +392,11 @@ func run(c *core.Ctx) {
 		return
 	}
 	t := c.Tape
+	restore, hooksOn := gen.WithHooks(t)
+	defer restore()
+	if hooksOn {
+		c.Probe("extension_hooks_installed")
+	}
 	k := gen.DrawKnobs(t)
 	k.ValueForms = false // a decoder's wire peer encodes what it holds; value forms encode identically
 	g := gen.New(t, k)
